@@ -431,10 +431,19 @@ func c02RecipeCase(r *mon.Run, idx int64) {
 		}
 		f3 := jen.NewFilePathName("my/local", "p")
 		judgeFragment(r, c, desc, fmt.Sprintf("Statement.RenderWithFile (fragment %d)", i), func(w *bytes.Buffer) error { return fr.RenderWithFile(w, f3) })
+		// a File's NoFormat setting concerns File.Render only: a fragment rendered with such a File is still
+		// checked and formatted
+		f4 := jen.NewFile("p")
+		f4.NoFormat = true
+		f4.PackagePrefix = "pk"
+		judgeFragment(r, c, desc, fmt.Sprintf("Statement.RenderWithFile(NoFormat File) (fragment %d)", i), func(w *bytes.Buffer) error { return fr.RenderWithFile(w, f4) })
 	}
 	for i, g := range b1.groups {
 		g := g
 		judgeFragment(r, c, desc, fmt.Sprintf("Group.Render (group %d)", i), func(w *bytes.Buffer) error { return g.Render(w) })
+		f5 := jen.NewFile("p")
+		f5.NoFormat = true
+		judgeFragment(r, c, desc, fmt.Sprintf("Group.RenderWithFile(NoFormat File) (group %d)", i), func(w *bytes.Buffer) error { return g.RenderWithFile(w, f5) })
 	}
 	key := "invalid"
 	if valid {
